@@ -3,6 +3,7 @@ package main
 import (
 	"fmt"
 	"go/types"
+	"sort"
 	"strings"
 
 	"golang.org/x/tools/go/ssa"
@@ -222,6 +223,34 @@ func init() {
 		reg(n, "synchronisation primitive: no effect on data (monitor rule A8)", noop)
 	}
 
+	// --- condition variables: while waiting the monitor lock is released, so everything other goroutines may touch is arbitrary afterwards
+	reg("(*sync.Cond).Wait", "releases the monitor: every heap is arbitrary afterwards (other holders of the lock may have changed anything)", func(c *callCtx) bool {
+		x := c.x
+		names := map[string]bool{}
+		for k := range c.st.vars {
+			names[k] = true
+		}
+		for k := range x.prog.heapSorts {
+			names[k] = true
+		}
+		written := x.prog.globalWrites()
+		for _, k := range sortedSet(names) {
+			if (strings.HasPrefix(k, "Hf.") || strings.HasPrefix(k, "HA.") || strings.HasPrefix(k, "Hp.") || strings.HasPrefix(k, "HM") || strings.HasPrefix(k, "G.")) && written[k] {
+				x.havocVar(c.st, k)
+			}
+		}
+		x.bumpAlloc(c.n, c.st)
+		return true
+	})
+	specMods["(*sync.Cond).Wait"] = func(p *Program, c *ssa.CallCommon) []string {
+		var out []string
+		for k := range p.globalWrites() {
+			out = append(out, k)
+		}
+		sort.Strings(out)
+		return out
+	}
+
 	// --- strings: pure functions of their (string) arguments
 	reg("strings.HasPrefix", "s starts with p; HasPrefix(s,\"\") is true", func(c *callCtx) bool {
 		c.x.vc.declFun("uf_HasPrefix", []string{SStr, SStr}, SBool)
@@ -284,4 +313,19 @@ func (x *Exec) errorsAsTerms(err Term, t types.Type) (string, Term) {
 	x.vc.axiom(mkImp(direct, mkAnd(ok, mkEq(val.S, x.unboxIface(err, t).S))))
 	x.vc.axiom(mkImp(app("=", app("i.tag", err.S), "0"), mkNot(ok)))
 	return ok, val
+}
+
+// globalWrites: heaps that some pint function writes at an object it did not allocate itself. A heap outside this
+// set is never changed after construction by any goroutine.
+func (p *Program) globalWrites() map[string]bool {
+	if p.gwrites != nil {
+		return p.gwrites
+	}
+	p.gwrites = map[string]bool{}
+	for _, fn := range p.allFuncs {
+		for h := range p.direct(fn).heaps {
+			p.gwrites[h] = true
+		}
+	}
+	return p.gwrites
 }
